@@ -1,0 +1,14 @@
+//go:build verif
+// +build verif
+
+package snowflake_server
+
+// VerifHook, when set by a verification harness, is called at the
+// instrumented points of this package (build tag "verif" only).
+var VerifHook func(point string, args ...interface{})
+
+func vhook(point string, args ...interface{}) {
+	if h := VerifHook; h != nil {
+		h(point, args...)
+	}
+}
